@@ -1898,7 +1898,10 @@ def ss2tf(*args, **kwargs):
     from .statesp import StateSpace
     if len(args) == 4 or len(args) == 5:
         # Assume we were given the A, B, C, D matrix and (optional) dt
-        return _convert_to_transfer_function(StateSpace(*args, **kwargs))
+        sys = StateSpace(*args, **kwargs)
+        return TransferFunction(
+            _convert_to_transfer_function(sys), name=kwargs.get('name'),
+            inputs=sys.input_labels, outputs=sys.output_labels)
 
     if len(args) == 1:
         sys = args[0]
